@@ -300,6 +300,12 @@ func init() {
 		Body: listBody([]int{2, 2, 1}, 1), Post: linPost(dequeModel, "C12.list-linearizable"),
 	})
 	eng.Register(&eng.Scenario{
+		Name: "list-history", Props: []string{"C12"}, MustFinish: true, ObsNames: obs, NoRace: true,
+		Doc:   "LinkedList constructed with 0..3 initial elements (choice): one thread issues every sequence of 5 operations from {Push,PushFront,Pop,Peek,PeekTail,IsEmpty,Reset}, then the list is drained; compared with a sequential deque",
+		Quick: eng.Bounds{PB: 0}, Thorough: eng.Bounds{PB: 0},
+		Body: func() { listBody([]int{5}, vsched.Choose(4))() }, Post: linPost(dequeModel, "C12.list-linearizable"),
+	})
+	eng.Register(&eng.Scenario{
 		Name: "list-2-2", Props: []string{"C12"}, MustFinish: true, ObsNames: obs,
 		Doc:   "LinkedList: 2 threads x 2 operations, empty initial list, deeper preemption bound",
 		Quick: eng.Bounds{PB: 3}, Thorough: eng.Bounds{PB: 4},
